@@ -14,6 +14,10 @@ var bufferContents = []string{
 	"package x\n\n@goht T(s string) {\n%p not indented\n}\n", // invalid
 	"package x\n\n@goht T(s string) {\n\t%p{a: #{s}, b ? #{s != \"\"}} x é\n}\n\nvar k = 1\n",
 	"",
+	// same generated code as the first buffer, different position map
+	"package x\n\n@goht T(s string) {\n\n\t%p= s\n}\n",
+	"package x\n\n@goht T(s string) {\n\t-# note\n\t%p= s\n}\n",
+	"package x\n\n@goht T(s string) {\n\t%p=   s\n}\n",
 }
 
 type docState struct {
@@ -33,6 +37,8 @@ func (c *Ctx) genHistory(n int, uris []string) []POp {
 		d := st[u]
 		txt := bufferContents[c.R.Intn(len(bufferContents))]
 		switch k := c.R.Intn(10); {
+		case d.open && strings.HasSuffix(u, ".goht") && c.R.Intn(3) == 0:
+			ops = append(ops, c.probe(u, d.text))
 		case !d.open:
 			d.open, d.version, d.text = true, d.version+1, txt
 			ops = append(ops, POp{Op: "open", URI: u, Text: txt, Version: d.version})
@@ -52,6 +58,14 @@ func (c *Ctx) genHistory(n int, uris []string) []POp {
 		}
 	}
 	return ops
+}
+
+// probe: a Hover request at a random position of the buffer; the position map in force decides where (and
+// whether) the downstream server is asked.
+func (c *Ctx) probe(u, text string) POp {
+	lines := strings.Split(text, "\n")
+	li := c.R.Intn(len(lines))
+	return POp{Op: "req", Method: "Hover", URI: u, Line: uint32(li), Char: uint32(c.R.Intn(len(lines[li]) + 1))}
 }
 
 // allHistories: every history of length n over the given alphabet of abstract moves.
@@ -104,6 +118,13 @@ func (c *Ctx) exhaustiveHistories(n int, uris []string, contents []string) [][]P
 				}
 			}
 			if ok {
+				for u, d := range st {
+					if d.open {
+						for _, pos := range [][2]uint32{{3, 5}, {4, 5}, {3, 7}} {
+							ops = append(ops, POp{Op: "req", Method: "Hover", URI: uris[u], Line: pos[0], Char: pos[1]})
+						}
+					}
+				}
 				out = append(out, ops)
 			}
 			return
@@ -118,10 +139,13 @@ func (c *Ctx) exhaustiveHistories(n int, uris []string, contents []string) [][]P
 
 func c08(c *Ctx) {
 	c.Rep.TieObs = []string{"O-proxy: the downstream call log (method, URI, version, language id, text payload) of the real proxy.Server driven by a scripted downstream"}
-	c.Rep.Rule = "histories of didOpen / didChange(full text) / didSave / didClose over two template URIs and one plain .go URI with buffer contents ranging over valid, invalid, half-typed and empty templates: exhaustive up to a length bound and random beyond; oracle after every prefix: downstream holds, under the generated URI and language go, exactly the real compilation of the mirrored buffer, with the editor's version; every text payload is generated code; no template URI downstream; close closes; distinct = distinct history; non-trivial = history with at least one change after an open"
+	c.Rep.Rule = "histories of didOpen / didChange(full text) / didSave / didClose over two template URIs and one plain .go URI with buffer contents ranging over valid, invalid, half-typed and empty templates: exhaustive up to a length bound and random beyond; oracle after every prefix: downstream holds, under the generated URI and language go, exactly the real compilation of the mirrored buffer, with the editor's version; every text payload is generated code; no template URI downstream; close closes; Hover probes between the edits (including edits that leave the generated code byte-identical but move the template positions) are translated with the position map of the current buffer; distinct = distinct history; non-trivial = history with at least one change after an open"
 	uris := []string{"file:///w/a.goht", "file:///w/sub/b.goht", "file:///w/c.go"}
 	var hists [][]POp
-	small := []string{bufferContents[0], bufferContents[2], bufferContents[3]}
+	small := []string{bufferContents[0], bufferContents[6], bufferContents[3]}
+	if c.Thorough() {
+		small = append(small, bufferContents[2])
+	}
 	hists = append(hists, c.exhaustiveHistories(c.N(3, 4), uris[:2], small)...)
 	for i := 0; i < c.N(150, 6000); i++ {
 		hists = append(hists, c.genHistory(4+c.R.Intn(c.N(12, 30)), uris))
@@ -161,6 +185,25 @@ func c08(c *Ctx) {
 				nontrivial = true
 			case "close":
 				d.open = false
+			}
+			if op.Op == "req" && tmpl && d.open {
+				tb := tablesOf(real[d.text])
+				to, mapped := tb.s2t[[2]int{int(op.Line), int(op.Char)}]
+				var downs []PEvent
+				for _, ev := range log[oi] {
+					if ev.Kind == "D" {
+						downs = append(downs, ev)
+					}
+				}
+				c.dist(fmt.Sprintf("probe.mapped=%v", mapped))
+				switch {
+				case !mapped && len(downs) != 0:
+					bad("stale-map", fmt.Sprintf("request at %d:%d has no counterpart in the code of the current buffer but the downstream server was asked (%s)", op.Line, op.Char, clip(downs[0].Raw, 80)), oi)
+				case mapped && len(downs) != 1:
+					bad("stale-map", fmt.Sprintf("request at %d:%d maps to %d:%d in the code of the current buffer but %d downstream calls were made", op.Line, op.Char, to[0], to[1], len(downs)), oi)
+				case mapped && kv(downs[0].F, "pos") != fmt.Sprintf("%d:%d", to[0], to[1]):
+					bad("stale-map", fmt.Sprintf("request at %d:%d translated to %s; the map of the current buffer assigns %d:%d", op.Line, op.Char, kv(downs[0].F, "pos"), to[0], to[1]), oi)
+				}
 			}
 			for _, ev := range log[oi] {
 				if ev.Kind == "R" && len(ev.F) > 0 && ev.F[0] == "panic" {
